@@ -303,17 +303,21 @@ func (v *DataModelView) DrawEnum(name string, entity *sysl.Type_Enum) {
 	// Prepare the enum names to be written in the order of their numeric values.
 	// Ideally they would be written in the same order they appear in the source, but SourceContext
 	// is not available for enum values.
-	vals := make([]int, 0, len(entity.Items))
-	valToName := make(map[int]string, len(entity.Items))
-	for name, val := range entity.Items {
-		vals = append(vals, int(val))
-		valToName[int(val)] = name
+	// Names that share a value are all written, in name order.
+	names := make([]string, 0, len(entity.Items))
+	for name := range entity.Items {
+		names = append(names, name)
 	}
-	sort.Ints(vals)
+	sort.Slice(names, func(i, j int) bool {
+		if vi, vj := entity.Items[names[i]], entity.Items[names[j]]; vi != vj {
+			return vi < vj
+		}
+		return names[i] < names[j]
+	})
 
 	v.StringBuilder.WriteString(fmt.Sprintf("enum \"%s\" as %s {\n", name, encEntity))
-	for _, val := range vals {
-		v.StringBuilder.WriteString(fmt.Sprintf("%s\n", valToName[val]))
+	for _, name := range names {
+		v.StringBuilder.WriteString(fmt.Sprintf("%s\n", name))
 	}
 	v.StringBuilder.WriteString("}\n")
 }
